@@ -985,3 +985,325 @@ class ConcBatStream(Stream):
 
     def shrink(self, case):
         return _shrink_conc(case)
+
+
+# ============================================================================= production wiring, health changes in flight
+# The REAL BatteryManager built by its constructor on a fake microgrid (component graph + data streams):
+# real ComponentPoolStatusTracker, real BatteryStatusTrackers, real distribution algorithm, real results
+# channel.  A history of requests goes through `distribute_power`; while the set_power calls of a request are
+# in flight a battery (or its inverters) may start reporting an unusable state.  The observation is the Result
+# object that was SENT, read from the results channel after the request settled, and read AGAIN at the end of
+# the history (a Result must not change after it was sent).  All numbers are exact rationals end to end.
+WIRINGS = [
+    {9: (8,), 19: (18, 28), 29: (38,), 39: (38,)},       # 1:1, one battery two inverters, two batteries one inverter
+    {9: (8,), 19: (18,)},
+    {9: (8,), 19: (18,), 29: (28,)},
+    {19: (18, 28), 9: (8,)},
+    {29: (38,), 39: (38,), 9: (8,)},
+]
+HEALTH_CHANGES = ["bat_error", "relay_open", "cap_nan", "inv_error"]
+
+
+def _wired_imports():
+    import frequenz.client.microgrid as cm
+    from frequenz.channels import Broadcast
+    from frequenz.sdk.microgrid.component_graph import _MicrogridComponentGraph
+    return cm, Broadcast, _MicrogridComponentGraph
+
+
+class WiredApi(FakeApiById):
+    def __init__(self, I, bats, invs, Broadcast):
+        super().__init__({}, I)
+        self.bat_ch = {b: Broadcast(name=f"bat{b}", resend_latest=True) for b in bats}
+        self.inv_ch = {i: Broadcast(name=f"inv{i}", resend_latest=True) for i in invs}
+        self.event = None          # (call index, coroutine factory): something that happens while calls are in flight
+        self._bg = []
+
+    async def battery_data(self, component_id, maxsize=50):
+        return self.bat_ch[component_id].new_receiver(limit=maxsize)
+
+    async def inverter_data(self, component_id, maxsize=50):
+        return self.inv_ch[component_id].new_receiver(limit=maxsize)
+
+    async def set_power(self, component_id, power):
+        if self.event is not None and self.event[0] <= len(self.calls):
+            ev, self.event = self.event[1], None
+            self._bg.append(asyncio.ensure_future(self._later(ev)))     # happens just after this call was sent
+        return await super().set_power(component_id, power)
+
+    @staticmethod
+    async def _later(ev):
+        await asyncio.sleep(0.01)
+        await ev()
+
+
+def _wired_msgs(case, cm):
+    import math
+    from datetime import datetime, timezone
+    soc = {b: X(fr(s)) for b, s, _ in case["bats"]}
+    cap = {b: X(fr(c)) for b, _, c in case["bats"]}
+    bound = {i: X(fr(v)) for i, v in case["inv_bounds"]}
+    nan3 = (math.nan,) * 3
+
+    def bat(b, change=None):
+        return cm.BatteryData(
+            component_id=b, timestamp=datetime.now(tz=timezone.utc), soc=soc[b], soc_lower_bound=X(10), soc_upper_bound=X(90),
+            capacity=math.nan if change == "cap_nan" else cap[b],
+            power_inclusion_lower_bound=X(-2000), power_exclusion_lower_bound=X(0),
+            power_inclusion_upper_bound=X(2000), power_exclusion_upper_bound=X(0), temperature=25.0,
+            relay_state=cm.BatteryRelayState.OPENED if change == "relay_open" else cm.BatteryRelayState.CLOSED,
+            component_state=cm.BatteryComponentState.ERROR if change == "bat_error" else cm.BatteryComponentState.IDLE, errors=[])
+
+    def inv(i, change=None):
+        return cm.InverterData(
+            component_id=i, timestamp=datetime.now(tz=timezone.utc), active_power=0.0, active_power_per_phase=nan3,
+            reactive_power=0.0, reactive_power_per_phase=nan3, current_per_phase=nan3, voltage_per_phase=nan3,
+            active_power_inclusion_lower_bound=-bound[i], active_power_exclusion_lower_bound=X(0),
+            active_power_inclusion_upper_bound=bound[i], active_power_exclusion_upper_bound=X(0), frequency=50.0,
+            component_state=cm.InverterComponentState.ERROR if change == "inv_error" else cm.InverterComponentState.IDLE, errors=[])
+    return bat, inv
+
+
+def run_wired(case) -> dict:
+    I = _imports()
+    cm, Broadcast, Graph = _wired_imports()
+    wiring = {b: tuple(invs) for b, invs in case["wiring"]}
+    inv_bats: dict[int, set] = {}
+    for b, invs in wiring.items():
+        for i in invs:
+            inv_bats.setdefault(i, set()).add(b)
+    bat_msg, inv_msg = _wired_msgs(case, cm)
+
+    async def main():
+        api = WiredApi(I, set(wiring), set(inv_bats), Broadcast)
+        comps = {cm.Component(1, cm.ComponentCategory.GRID), cm.Component(2, cm.ComponentCategory.METER)}
+        conns = {cm.Connection(1, 2)}
+        for i in inv_bats:
+            comps.add(cm.Component(i, cm.ComponentCategory.INVERTER, cm.InverterType.BATTERY))
+            conns.add(cm.Connection(2, i))
+        for b, invs in wiring.items():
+            comps.add(cm.Component(b, cm.ComponentCategory.BATTERY))
+            for i in invs:
+                conns.add(cm.Connection(i, b))
+        I.cm._CONNECTION_MANAGER = SimpleNamespace(api_client=api, component_graph=Graph(comps, conns))
+        results = Broadcast(name="results")
+        results_rx = results.new_receiver(limit=50)
+        status = Broadcast(name="status", resend_latest=True)
+        status_rx = status.new_receiver(limit=1000)
+        manager = I.BatteryManager(status.new_sender(), results.new_sender(), timedelta(seconds=TIMEOUT_S))
+        await manager.start()
+        health: dict[int, str | None] = {b: None for b in wiring}
+
+        async def send_all():
+            for b in wiring:
+                await api.bat_ch[b].new_sender().send(bat_msg(b, health[b]))
+            for i, bs in inv_bats.items():
+                bad = any(health[b] == "inv_error" for b in bs)
+                await api.inv_ch[i].new_sender().send(inv_msg(i, "inv_error" if bad else None))
+
+        await send_all()
+        working: set = set()
+        try:
+            while working != set(wiring):
+                working = set((await asyncio.wait_for(status_rx.receive(), 5.0)).working)
+        except asyncio.TimeoutError:
+            pass
+        retained, out = [], []
+        for h in case["history"]:
+            for b in h.get("recover", []):
+                health[b] = None
+            await send_all()                       # fresh data (the data-age timers run on virtual time)
+            await asyncio.sleep(0.05)
+            api.script = {e[0]: (e[1], e[2], e[3] if len(e) > 3 else 0) for e in h["script"]}
+            api.calls = []
+            ev = h.get("health")
+            if ev:
+                victim, change, at = ev
+
+                async def change_health(victim=victim, change=change):
+                    health[victim] = change
+                    if change == "inv_error":
+                        for i in wiring[victim]:
+                            await api.inv_ch[i].new_sender().send(inv_msg(i, change))
+                    else:
+                        await api.bat_ch[victim].new_sender().send(bat_msg(victim, change))
+                api.event = (at, change_health)
+            request = I.Request(power=I.Power.from_watts(X(fr(h["req"]))), component_ids=frozenset(h["ids"]),
+                                adjust_power=h.get("adjust", True))
+            try:
+                await manager.distribute_power(request)
+                st = "ok"
+            except Exception as exc:  # noqa: BLE001
+                st = "raise:" + type(exc).__name__
+            api.event = None
+            await asyncio.sleep(0.5)               # let the trackers digest the outcome
+            got = []
+            while True:
+                try:
+                    got.append(await asyncio.wait_for(results_rx.receive(), 0.01))
+                except asyncio.TimeoutError:
+                    break
+            mine = [r for r in got if getattr(r, "request", None) is request]
+            first = obs_of_result(mine[0], I, request) if mine else {"kind": "none" if st == "ok" else st}
+            retained.append((mine[0] if mine else None, request))
+            sc = {e[0]: eff_outcome(e) for e in h["script"]}
+            out.append({"first": first, "calls": [[c, jq(p)] for c, p in api.calls], "outs": [sc.get(c, 0) for c, _ in api.calls],
+                        "n_results": len(mine), "stray_results": len(got) - len(mine)})
+        await asyncio.sleep(1.0)
+        for o, (res, request) in zip(out, retained):       # the retained objects, read again at the end of the history
+            final = obs_of_result(res, I, request) if res is not None else dict(o["first"])
+            o.update(final)
+            o["changed_after_sending"] = final != o["first"]
+            if not o["changed_after_sending"]:
+                del o["first"]
+        await manager.stop()
+        return out
+
+    (st, res), _ = _run(main())
+    if st == "raise":
+        return {"reqs": [], "error": res}
+    return {"reqs": res}
+
+
+WIRED_HEADER = """From Verif Require Import model.Accounting.
+Open Scope Z_scope.
+(* per request of the history: set-points = the recorded set_power calls, remaining power = the reported excess
+   (an output of the distribution algorithm, C01's subject), outcomes of those calls; expected = the Result SENT *)
+Definition check1 (c : bat_in * result * list (Z * Q)) : bool :=
+  let '(x, r, calls) := c in result_eqb (bat_result x) r && calls_eqb (bat_calls x) calls.
+Definition check (cs : list (bat_in * result * list (Z * Q))) : bool := forallb check1 cs.
+"""
+
+
+class WiredBatStream(Stream):
+    name = "wired_battery"
+    coq_header = WIRED_HEADER
+
+    def gen(self, rng, tier):
+        # the seeded interleaving: everything healthy, one battery reports an error while its call is in flight
+        base = {"wiring": [[b, list(i)] for b, i in WIRINGS[0].items()], "bats": [[9, 40, 10000], [19, 55, 10000], [29, 30, 10000], [39, 35, 10000]],
+                "inv_bounds": [[8, 1000], [18, 700], [28, 400], [38, 1500]]}
+        for change in HEALTH_CHANGES:
+            for o in (0, 2):
+                yield {**base, "history": [{"req": [900, 1], "ids": [9, 19, 29, 39], "script": [[18, o, 1, 0]], "health": [19, change, 0]}]}
+        for _ in range(140 if tier == "quick" else 2500):
+            w = rng.choice(WIRINGS)
+            invs = sorted({i for v in w.values() for i in v})
+            case = {"wiring": [[b, list(i)] for b, i in w.items()],
+                    "bats": [[b, rng.choice([15, 30, 40, 55, 70, 85]), rng.choice([5000, 10000, 20000])] for b in w],
+                    "inv_bounds": [[i, rng.choice([400, 700, 1000, 1500])] for i in invs], "history": []}
+            groups = []
+            for b, v in w.items():
+                g = next((g for g in groups if set(g[1]) & set(v)), None)
+                if g:
+                    g[0].append(b)
+                    g[1] = sorted(set(g[1]) | set(v))
+                else:
+                    groups.append([[b], list(v)])
+            for _ in range(rng.choice([1, 1, 2, 3])):
+                gs = groups if rng.random() < 0.7 else rng.sample(groups, rng.randint(1, len(groups)))
+                ids = sorted(b for g in gs for b in g[0])
+                ginvs = [i for g in gs for i in g[1]]
+                prof = rng.choice(LAT_PROFILES)
+                script = [[e[0], e[1], max(e[2], 1) if e[1] != 4 else e[2], e[3]] for e in gen_script(rng, ginvs, prof)]
+                if rng.random() < 0.4:
+                    script = [[e[0], 0, e[2] if e[2] <= 12 else 1, 0] for e in script]
+                h = {"req": jq(fr(rng.choice([100, 300, 750, 900, 1500, 3000, 5000, [1001, 7]])) * rng.choice([1, -1])), "ids": ids,
+                     "script": script, "profile": prof}
+                if rng.random() < 0.75:
+                    h["health"] = [rng.choice(ids), rng.choice(HEALTH_CHANGES), rng.choice([0, 0, 0, 1, 2])]
+                if case["history"] and rng.random() < 0.5:
+                    h["recover"] = [x["health"][0] for x in case["history"] if "health" in x]
+                case["history"].append(h)
+            yield case
+
+    def run_impl(self, case):
+        return run_wired(case)
+
+    @staticmethod
+    def _map(case):
+        m: dict[int, list] = {}
+        for b, invs in case["wiring"]:
+            for i in invs:
+                m.setdefault(i, []).append(b)
+        return m
+
+    def _subs(self, case, obs):
+        m = self._map(case)
+        for h, o in zip(case["history"], obs["reqs"]):
+            if o["kind"] in ("Success", "PartialFailure"):
+                yield ({"req": h["req"], "dist": o["calls"], "rem": o["excess"], "map": sorted([i, sorted(b)] for i, b in m.items()),
+                        "out": o["outs"]}, o)
+
+    def to_coq(self, case, obs):
+        terms = [f"({c_bat_in(sub)}, {c_result(o)}, {c_calls(o['calls'])})" for sub, o in self._subs(case, obs)]
+        return "[" + "; ".join(terms) + "]"
+
+    def show_term(self, case, obs):
+        return "[" + "; ".join(f"bat_result {c_bat_in(sub)}" for sub, _ in self._subs(case, obs)) + "]"
+
+    def oracle(self, case, obs):
+        out = []
+        if obs.get("error"):
+            return [{"what": f"result: driving the manager raised {obs['error']}", "finding": None}]
+        m = self._map(case)
+        for j, (h, o) in enumerate(zip(case["history"], obs["reqs"])):
+            pre = f"request {j} ({fr(h['req'])} W to batteries {h['ids']}"
+            if h.get("health"):
+                pre += f"; battery {h['health'][0]} reports {h['health'][1]} while the calls are in flight"
+            pre += "), the Result that was sent: "
+            if o.get("changed_after_sending"):
+                out.append({"what": "retained: " + pre + f"changed after it was sent, from {o['first']} to its present fields", "finding": None})
+            if o["n_results"] > 1 or o["stray_results"]:
+                out.append({"what": "result: " + pre + f"{o['n_results']} results for it, {o['stray_results']} for no request", "finding": None})
+            if o["kind"] not in ("Success", "PartialFailure"):
+                if o["calls"]:
+                    out.append({"what": "result: " + pre + f"{o['kind']} although set_power calls were made: {o['calls']}", "finding": None})
+                continue
+            for w in judge(o, fr(h["req"]), o["outs"], lambda i: m[i]):
+                out.append({"what": w.split(":")[0] + ": " + pre + w.split(":", 1)[1].strip(), "finding": None})
+            if o.get("first"):
+                for w in judge({**o["first"], "calls": o["calls"]}, fr(h["req"]), o["outs"], lambda i: m[i]):
+                    out.append({"what": w.split(":")[0] + ": " + pre + "(as first read from the channel) " + w.split(":", 1)[1].strip(), "finding": None})
+        return out
+
+    def key(self, case, obs):
+        if not any(o["calls"] for o in obs["reqs"]):
+            return None
+        return json.dumps([case["wiring"], case["bats"], case["inv_bounds"], [[h["req"], h["ids"], h["script"], h.get("health"), h.get("recover")] for h in case["history"]]])
+
+    def labels(self, case, obs):
+        lb = [f"requests={len(case['history'])}"]
+        for h, o in zip(case["history"], obs["reqs"]):
+            lb.append("kind=" + o["kind"])
+            if h.get("health"):
+                lb.append("health_change_in_flight=" + h["health"][1])
+                m = self._map(case)
+                victim_calls = [k for k, (c, _) in enumerate(o["calls"]) if h["health"][0] in m[c]]
+                if victim_calls:
+                    lb.append("victim_call_failed" if any(FAILED[o["outs"][k]] for k in victim_calls) else "victim_call_ok")
+                else:
+                    lb.append("victim_not_addressed")
+            else:
+                lb.append("no_health_change")
+            if h.get("recover"):
+                lb.append("recovered_before_request")
+            if len(o["calls"]) < len({i for b, invs in case["wiring"] if b in h["ids"] for i in invs}):
+                lb.append("some_requested_batteries_unusable")
+            if any(x == 4 for x in o["outs"]):
+                lb.append("timeout_among_calls")
+        return sorted(set(lb))
+
+    def shrink(self, case):
+        hs = case["history"]
+        if len(hs) > 1:
+            for i in range(len(hs)):
+                yield {**case, "history": hs[:i] + hs[i + 1:]}
+        for i, h in enumerate(hs):
+            if any(e[1] or e[2] > 1 or e[3] for e in h["script"]):
+                yield {**case, "history": hs[:i] + [{**h, "script": [[e[0], 0, 1, 0] for e in h["script"]]}] + hs[i + 1:]}
+            for k, e in enumerate(h["script"]):
+                if e[1] or e[2] > 1 or e[3]:
+                    yield {**case, "history": hs[:i] + [{**h, "script": h["script"][:k] + [[e[0], 0, 1, 0]] + h["script"][k + 1:]}] + hs[i + 1:]}
+            if h.get("recover"):
+                yield {**case, "history": hs[:i] + [{k: v for k, v in h.items() if k != "recover"}] + hs[i + 1:]}
